@@ -455,6 +455,13 @@ def run_check(spec, tier, verif_seed):
             out_lines.append(f"VIOLATION property={spec.prop} replay={path}")
             out_lines.append(f"  key={key} plans={vcounts.get(key, 0)} detail={viol['detail'][:300]}")
             replays.append(path)
+        elif _prelude_replay(spec, v, key, verif_seed, tier, nshards, path):
+            # the plan alone does not fail in a fresh interpreter: the library carried state over from EARLIER, independent plans of
+            # the same process.  The replay file then holds those earlier plans as a prelude (minimised) followed by the failing one.
+            out_lines.append(f"VIOLATION property={spec.prop} replay={path}")
+            out_lines.append(f"  key={key} plans={vcounts.get(key, 0)} (needs state left behind by earlier plans in the same process; "
+                             f"replay file carries them as prelude) detail={v['violation']['detail'][:240]}")
+            replays.append(path)
         else:
             errors.append(f"violation {key} did not replay exactly from {path}: exit={rp.returncode} out={rp.stdout[-500:]} err={rp.stderr[-500:]}")
 
@@ -510,8 +517,60 @@ def run_check(spec, tier, verif_seed):
     return EXIT_VIOLATION if replays else EXIT_OK
 
 
+def _prelude_replay(spec, v, key, verif_seed, tier, nshards, path):
+    """try to reproduce a violation that needs earlier plans of the same shard: run k predecessors first (k doubling), then
+    minimise the prelude; writes the replay file and verifies it in a fresh interpreter"""
+    run = v["run"]
+    preds = list(range(run % nshards, run, nshards))
+    if not preds:
+        return False
+    main_py = os.path.join(env.VERIF_DIR, "simkit", "main.py")
+
+    def attempt(prelude_runs):
+        data = dict(property=spec.prop, key=key, seed=v["seed"], run=run, verif_seed=verif_seed, tier=tier, plan=v["plan"],
+                    prelude_runs=prelude_runs, violation=v["violation"], digest=None, repo=repo_state())
+        with open(path, "w") as f:
+            json.dump(data, f, indent=1, sort_keys=True)
+        rp = subprocess.run([env.PYTHON, "-B", main_py, spec.prop, "--replay", path], capture_output=True, text=True,
+                            env=env.child_env(_KD_VERIF_REEXEC="1", VERIF_SEED=verif_seed), cwd=env.VERIF_DIR, timeout=900)
+        return rp.returncode == EXIT_VIOLATION
+
+    k = 1
+    found = None
+    while k <= len(preds) * 2:
+        cand = preds[-min(k, len(preds)):]
+        if attempt(cand):
+            found = cand
+            break
+        if k >= len(preds):
+            break
+        k *= 4
+    if found is None:
+        return False
+    # greedy minimisation of the prelude
+    i = 0
+    budget = 24
+    while i < len(found) and budget > 0:
+        cand = found[:i] + found[i + 1:]
+        budget -= 1
+        if cand and attempt(cand):
+            found = cand
+        else:
+            i += 1
+    return attempt(found)
+
+
 def replay(spec, path):
     data = json.load(open(path))
+    for r in data.get("prelude_runs") or []:
+        # earlier, independent plans of the same process (regenerated from the recorded VERIF_SEED); their own verdicts are ignored
+        try:
+            pl = spec.gen_plan(derive_seed(data.get("verif_seed", 0), spec.prop, r), data.get("tier", "quick"))
+            pl["_seed"] = derive_seed(data.get("verif_seed", 0), spec.prop, r)
+            pl["_run"] = r
+            safe_execute(spec, pl)
+        except HarnessError:
+            pass
     out = safe_execute(spec, data["plan"])
     d = out.digest
     key = data.get("key")
